@@ -118,6 +118,13 @@ def make_setter(spec):
     elif kind == 'keyerr':
         def setter(doc):
             raise KeyError('never there')
+    elif kind == 'indirect':
+        # reads its input through a look-up table: the KeyError of a missing input does not name a field
+        dep = spec['dep']
+
+        def setter(doc):
+            table = {True: 1}
+            return table[dep in doc]
     else:
         raise ValueError(kind)
     setter.__vname__ = 's:' + json.dumps(spec, sort_keys=True, separators=(',', ':'))
